@@ -25,7 +25,8 @@ def load_findings():
 # finding's `trigger` text describes it). `f` = cpu.features(case, ref).
 TRIGGERS = {
     # D21: no memory-dependence tracking — a program that has both loads and stores
-    "ooo-mem": lambda v, f: v in SUPER and (f["loads"] > 0 or f["ld_text"]) and (f["stores"] > 0 or f["st_text"]),
+    "ooo-mem": lambda v, f: v in SUPER and (f["loads"] > 0 or f["ld_text"]) and (f["stores"] > 0 or f["st_text"]) and
+                            (os.environ.get("VERIF_OOOMEM_WIDE", "") == "1" or f["ls_line_conflict"] or f["mem_unexec"]),
     # README (fixed in MVP-6.2): on 6.0/6.1 the shadow of a slow (load-fed) conditional branch commits
     "ooo-shadow": lambda v, f: v in ("mvp6-0", "mvp6-1") and f["ld_text"] and f["branches"],
     # D29: two conditional branches in flight while loads keep the older one's neighbourhood busy: the younger
